@@ -52,7 +52,7 @@ type Cfg struct {
 }
 
 const base = uint64(1_000_000_000_000_000_000) // logical epoch, far from 0/1 special values
-const step = uint64(1_000_000_000)             // 1 s per tick (names have ns resolution)
+const step = uint64(250_000_000) // 250 ms per tick: consecutive snapshots of an instance often fall into the same second (names have ns resolution)
 
 type Fleet struct {
 	Cfg        Cfg
